@@ -89,6 +89,8 @@ var Inl = []string{
 	"<DIV>", "<XMP>", "<B>", "</DIV>", "<Script>",
 	"\ufeff", "\ufeff# h", "a\\\rb", "x\\\r\ny\\\rz", "[foo\\a]: /u", "[x][foo\\a]", "[ref\\1]", "[foo\\a]", "``` a&#32;b c\n", "~~~ x&Tab;y z\n", "``` a&nbsp;b\n", "- > q\n  ***\n  p", "- > q\n  # h\n  p\n- r", "> a\n>\n>\t  code", ">\t\tcode1\n>\t\tcode2", "> - a\n>\n>\tb",
 	"[\x00a\x00]: /u", "[\x00a\x00]", "\x00a\x00", "[a\x00\x00b\x00]", "`\x00 \x00`", "<a\x00b\x00>", "(/u\x00v\x00 \"t\x00\x00u\x00\")",
+	// a NUL first on a continuation line of a multi-line label, title, tag or code span (behind whatever prefix the container has)
+	"[a\n\x00b]: /u", "[a\n\x00b]", "[x][a\x00\n\x00\x00b]", "[t](/u 'x\n\x00y')", "<a\n\x00b='c'>", "`c\n\x00d`", "[t](/u\n\"\x00\")",
 }
 
 // Constructs are complete inline constructs; Lines uses them whole, split by a
